@@ -20,3 +20,5 @@ PROP['rule'] += ' Round-3 extension: payload types also include a trivially copy
 PROP['bins'] += [dict(name='C10_plugin.so', src='harness/C10_plugin.cpp', cfg=None, kind='aux', flags='-shared -fPIC'),
                  rc('C10_flatmap', 'harness/C10_flatmap.cpp', 'tbb-asan', env={'PBT_ONLY': 'parameters_across_modules'})]
 PROP['rule'] += ' Round-5 extension: the across-modules histories of C10 (binary C10_flatmap, property parameters_across_modules only) also run here: Any values set in one image and asked for in another (dlopen RTLD_LOCAL), types defined in both images and two different types of one name in unnamed namespaces; is<T>() / get<T>() succeed for exactly the stored type.'
+
+PROP['rule'] += ' Property optional_assign_throws: histories (<= 20 ops over 3 optionals) in which the payload assignment operator throws on request during a value assignment or a copy-assignment from an engaged optional, into engaged and into EMPTY targets; the state of the target afterwards is adopted, the lifetime clause (every constructed payload destroyed exactly once, liveCount 0 at the end) is asserted (non-trivial there = at least one failing assignment).'
